@@ -61,6 +61,14 @@ impl Gen {
         }
     }
     fn hostile(&mut self) -> (J, &'static str) {
+        // names that are not valid UTF-8 (Latin-1, lone continuation bytes, an overlong "/"), with and without a real '/'
+        if self.rng.chance(1, 4) {
+            let (b, k): (&[u8], &'static str) = *self.rng.pick(&[
+                (&b"../outside/evil\xff"[..], "slash"), (&b"caf\xe9/../../outside/o1"[..], "slash"), (&b"\xff/x"[..], "slash"), (&b"d1/\x80"[..], "slash"),
+                (&b"\x80\xbf/../../secret"[..], "slash"), (&b"/\xfe"[..], "slash"), (&b"caf\xe9"[..], "plain"), (&b"\xc0\xaf"[..], "plain"), (&b"x\x80y"[..], "plain"),
+            ]);
+            return (json!({"b": b}), k);
+        }
         match self.rng.below(9) {
             0 => (json!("."), "dot"),
             1 => (json!(".."), "dotdot"),
@@ -94,8 +102,8 @@ impl Gen {
     fn oflags(&mut self, seal: bool) -> i32 {
         let mut f = *self.rng.pick(&[libc::O_RDONLY, libc::O_WRONLY, libc::O_RDWR, libc::O_RDWR]);
         let pa = if seal { 3 } else { 5 };
-        if (!self.wb || seal) && self.rng.chance(1, pa) {
-            f |= libc::O_APPEND;
+        if self.rng.chance(1, pa) {
+            f |= libc::O_APPEND; // under writeback too: the server must honour the offsets the client kernel sends
         }
         if self.rng.chance(1, pa) {
             f |= libc::O_TRUNC;
@@ -273,11 +281,16 @@ impl Gen {
                     }
                     (self.handles[h as usize].node as i64, h, self.handles[h as usize].flags)
                 };
-                let mut fl = hfl & !(libc::O_TRUNC | libc::O_CREAT | libc::O_EXCL);
+                // under writeback the flags word stays exactly the one of the OPEN / CREATE (see Passthrough!Fl)
+                let mut fl = if self.wb && !seal { hfl } else { hfl & !(libc::O_TRUNC | libc::O_CREAT | libc::O_EXCL) };
                 if (!self.wb || seal) && self.rng.chance(1, if seal { 3 } else { 6 }) {
                     fl ^= libc::O_APPEND; // the client switched the description with F_SETFL
                 }
                 let off = *self.rng.pick(&[0u64, 0, 1, 2, 4, 7, 8, 9, 12, 13, 20]);
+                if op == "write" && seal && self.rng.chance(1, 4) {
+                    // a flags word may carry any open-time flag of the client's description
+                    fl |= *self.rng.pick(&[libc::O_TRUNC, libc::O_CREAT | libc::O_EXCL, libc::O_SYNC, libc::O_TRUNC | libc::O_CREAT, libc::O_NOCTTY]);
+                }
                 match op {
                     "read" => json!({"op": "read", "n": n, "h": h, "off": off, "len": *self.rng.pick(&[0u64, 1, 4, 8, 16, 64]), "flags": fl}),
                     "write" => {
